@@ -706,7 +706,7 @@ type tierParams struct {
 
 func params(thorough bool) tierParams {
 	if thorough {
-		return tierParams{ns: []int{3, 4, 5, 6, 7}, seeds: 2, supBound: 2, supRev: true,
+		return tierParams{ns: []int{3, 4, 5, 6, 7, 8, 9, 10}, seeds: 2, supBound: 2, supRev: true,
 			genBound: func(int) int { return 1 },
 			msgsFor:  func(int, int) []int { return []int{0, 1} }}
 	}
